@@ -37,6 +37,11 @@ type transTarget struct {
 	Subst            map[string]string // free expressions of a translated block (printed by exprStr) -> Lean term
 	Block            string            // "" = the whole function; "case:<Name>" = the body of the lock wrapper inside the case clause listing <Name>
 	ExtraParams      []string          // Lean binders for the free variables of a block
+	Pure             bool              // no receiver state: the definition is `params → ResultType`, the value of Result
+	Result           string            // Lean expression returned by a pure block
+	Fields           map[string]string // field selector chains (printed after the base expression, e.g. ".Metadata.Group") -> Lean projection
+	Literals         map[string]string // Go literals (as written, e.g. `""`) -> Lean term
+	Prelude          string            // `open …` line(s) the definition needs
 }
 
 var transTargets []transTarget
@@ -94,6 +99,9 @@ func (x *tr) expr(e ast.Expr) string {
 		}
 		return v.Name
 	case *ast.BasicLit:
+		if r, ok := x.t.Literals[v.Value]; ok {
+			return r
+		}
 		if v.Kind == token.INT {
 			return "(" + v.Value + " : Int)"
 		}
@@ -101,6 +109,20 @@ func (x *tr) expr(e ast.Expr) string {
 	case *ast.SelectorExpr:
 		if x.isState(v) {
 			return "items"
+		}
+		// a declared field chain: base.F1.F2 with ".F1.F2" in the Fields table
+		chain := ""
+		var base ast.Expr = v
+		for {
+			se, ok := base.(*ast.SelectorExpr)
+			if !ok {
+				break
+			}
+			chain = "." + se.Sel.Name + chain
+			base = se.X
+			if proj, ok := x.t.Fields[chain]; ok {
+				return "(" + x.expr(base) + ")." + proj
+			}
 		}
 		return x.fail("selector %s", exprStr(v))
 	case *ast.UnaryExpr:
@@ -437,13 +459,22 @@ func (x *tr) stmt(s ast.Stmt, ind string, out *[]string) {
 			emit("  pure ()")
 		}
 	case *ast.ForStmt:
-		// only the counting-down form `for i := len(X) - 1; i >= 0; i-- { … }`
+		// only the counting forms `for i := len(X) - 1; i >= 0; i-- { … }` and `for i := 0; i < len(X); i++ { … }`
 		iv, coll, ok := countDown(v)
+		rev := ".reverse"
 		if !ok {
-			emit(x.fail("for statement other than `for i := len(X)-1; i >= 0; i--`"))
+			iv, coll, ok = countUp(v)
+			rev = ""
+		}
+		if !ok {
+			emit(x.fail("for statement other than the two counting forms over len(X)"))
 			return
 		}
-		emit("for k__ in (List.range " + x.expr(coll) + ".length).reverse do")
+		if rev == "" {
+			emit("for k__ in List.range " + x.expr(coll) + ".length do")
+		} else {
+			emit("for k__ in (List.range " + x.expr(coll) + ".length).reverse do")
+		}
 		emit("  let " + iv + " : Int := Int.ofNat k__")
 		n := len(*out)
 		x.stmts(v.Body.List, ind+"  ", out)
@@ -531,6 +562,67 @@ func countDown(f *ast.ForStmt) (string, ast.Expr, bool) {
 	return iv.Name, ln.Args[0], true
 }
 
+// countUp recognises `for i := 0; i < len(X); i++` and returns i and X.
+func countUp(f *ast.ForStmt) (string, ast.Expr, bool) {
+	as, ok := f.Init.(*ast.AssignStmt)
+	if !ok || as.Tok != token.DEFINE || len(as.Lhs) != 1 || len(as.Rhs) != 1 {
+		return "", nil, false
+	}
+	iv, ok := as.Lhs[0].(*ast.Ident)
+	if !ok {
+		return "", nil, false
+	}
+	if z, ok := as.Rhs[0].(*ast.BasicLit); !ok || z.Value != "0" {
+		return "", nil, false
+	}
+	cond, ok := f.Cond.(*ast.BinaryExpr)
+	if !ok || cond.Op != token.LSS {
+		return "", nil, false
+	}
+	if ci, ok := cond.X.(*ast.Ident); !ok || ci.Name != iv.Name {
+		return "", nil, false
+	}
+	ln, ok := cond.Y.(*ast.CallExpr)
+	if !ok || len(ln.Args) != 1 {
+		return "", nil, false
+	}
+	if id, ok := ln.Fun.(*ast.Ident); !ok || id.Name != "len" {
+		return "", nil, false
+	}
+	post, ok := f.Post.(*ast.IncDecStmt)
+	if !ok || post.Tok != token.INC {
+		return "", nil, false
+	}
+	if pi, ok := post.X.(*ast.Ident); !ok || pi.Name != iv.Name {
+		return "", nil, false
+	}
+	return iv.Name, ln.Args[0], true
+}
+
+// findDefAndNext: the statement `name := …` anywhere in fd (outermost occurrence) together with the
+// statement that follows it in the same block.
+func findDefAndNext(fd *ast.FuncDecl, name string) []ast.Stmt {
+	var res []ast.Stmt
+	ast.Inspect(fd, func(n ast.Node) bool {
+		b, ok := n.(*ast.BlockStmt)
+		if !ok || res != nil {
+			return res == nil
+		}
+		for i, s := range b.List {
+			as, ok := s.(*ast.AssignStmt)
+			if !ok || as.Tok != token.DEFINE || len(as.Lhs) != 1 {
+				continue
+			}
+			if id, ok := as.Lhs[0].(*ast.Ident); ok && id.Name == name && i+1 < len(b.List) {
+				res = []ast.Stmt{s, b.List[i+1]}
+				return false
+			}
+		}
+		return true
+	})
+	return res
+}
+
 // findCaseLockBody: inside fd, the case clause that lists the identifier `name`; in it the single
 // `recv.withLock(func(){ … })` statement; returns that function literal's body.
 func findCaseLockBody(fd *ast.FuncDecl, name string) *ast.BlockStmt {
@@ -590,6 +682,9 @@ func translate(t transTarget) (string, string) {
 	}
 	var params []string
 	for _, f := range fd.Type.Params.List {
+		if t.Block != "" {
+			break // a block names its free variables itself (ExtraParams)
+		}
 		for _, n := range f.Names {
 			lt, ok := t.Params[n.Name]
 			if !ok {
@@ -609,7 +704,22 @@ func translate(t transTarget) (string, string) {
 		list = b.List
 		params = append([]string{}, t.ExtraParams...)
 	}
+	if strings.HasPrefix(t.Block, "def:") {
+		list = findDefAndNext(fd, strings.TrimPrefix(t.Block, "def:"))
+		if list == nil {
+			return "", "block " + t.Block + " not found"
+		}
+		params = append([]string{}, t.ExtraParams...)
+	}
 	x.stmts(list, "  ", &body)
+	if t.Pure {
+		if x.err != "" {
+			return "", x.err
+		}
+		hdr := fmt.Sprintf("/-- translated from `%s: (%s).%s`, block `%s` -/\ndef %s %s : %s := Id.run do\n",
+			t.File, t.Recv, t.Func, t.Block, t.Lean, strings.Join(params, " "), t.Ret)
+		return t.Prelude + hdr + strings.Join(body, "\n") + "\n  return " + t.Result + "\n", ""
+	}
 	if t.Block != "" {
 		body = append(body, "  return ((), items)")
 	} else if !endsWithReturn(fd.Body.List) {
@@ -632,7 +742,7 @@ func translate(t transTarget) (string, string) {
 
 func genTrans() string {
 	var b strings.Builder
-	b.WriteString("/- GENERATED by /verif/extract (translate.go) from the current /repo sources on every check run. Do not edit, do not commit. -/\nimport ShellOp.TransPrelude\nset_option linter.unusedVariables false\nnamespace ShellOp.Trans\nopen ShellOp.TransPrelude\n\n")
+	b.WriteString("/- GENERATED by /verif/extract (translate.go) from the current /repo sources on every check run. Do not edit, do not commit. -/\nimport ShellOp.TransPrelude\nimport ShellOp.Model.Combine\nset_option linter.unusedVariables false\nnamespace ShellOp.Trans\nopen ShellOp.TransPrelude\n\n")
 	for _, t := range transTargets {
 		def, err := translate(t)
 		if err != "" {
